@@ -45,17 +45,20 @@ def reqOf (s : String) : Spec.QuantReq :=
       | [u, b] => some (natOf u, natOf b)
       | _ => none
 
-/-- e2e cls=<seq|kd|eb> req=<uid:bits,…|-> skip=<types|-> hex=<stream> -- <g> -- <impl decode> -- <impl skip decode>
-    -> <model decode> | <model skip decode> | <RoundTripOK on the implementation's outputs> | <C10 skip check> -/
+/-- e2e cls=<seq|kd|eb> req=<uid:bits,…|-> skip=<types|-> hex=<stream>
+        -- <g> -- <impl decode> -- <impl decode, all transforms skipped> -- <impl decode with skip=<types>, or ->
+    -> <model decode> | <model decode all skipped> | <model decode skip=<types>> |
+       <RoundTripOK on the implementation's outputs> | <C10 skip check (all)> | <C10 skip check (subset)> -/
 def e2eOp (args : List String) : String :=
   match splitOn2 "--" args with
-  | [opts, gT, dT, sT] =>
+  | [opts, gT, dT, sT, uT] =>
     let cls := clsOf ((kv opts "cls").getD "seq")
     let req := reqOf ((kv opts "req").getD "-")
     let skipS := (kv opts "skip").getD "-"
     let bs := bytesOfHex ((kv opts "hex").getD "-")
     let mdec := decResultText bs (decodeGeometry {} { rest := bs })
-    let mskip := if skipS == "-" then "-" else decResultText bs (decodeGeometry { skip := skipOf skipS } { rest := bs })
+    let mall := decResultText bs (decodeGeometry { skip := [0, 1, 2, 3, 4] } { rest := bs })
+    let msub := if skipS == "-" then "-" else decResultText bs (decodeGeometry { skip := skipOf skipS } { rest := bs })
     let geomOf := fun (t : List String) =>
       match t with
       | "ok" :: _ :: rest => (Geometry.ofTokens rest).map (·.1)
@@ -65,13 +68,19 @@ def e2eOp (args : List String) : String :=
       | some (g, _), some g' =>
         match geomOf sT with
         | some gs => Spec.check cls req g g' gs
-        | none => if skipS == "-" then Spec.check cls req g g' g' else "violation: decode with skipped transforms failed"
+        | none => "violation: decode with all transforms skipped failed"
       | _, _ => "n/a"
-    let sk :=
+    let skAll :=
       match geomOf dT, geomOf sT with
-      | some g', some gs => Spec.skipCheck (skipOf skipS) g' gs
+      | some g', some gs => Spec.skipCheck [0, 1, 2, 3, 4] g' gs
       | _, _ => "n/a"
-    s!"{mdec} | {mskip} | {rt} | {sk}"
+    let skSub :=
+      if skipS == "-" then "n/a" else
+      match geomOf dT, geomOf uT with
+      | some g', some gs => Spec.skipCheck (skipOf skipS) g' gs
+      | some _, none => "violation: decode with skipped transforms failed"
+      | _, _ => "n/a"
+    s!"{mdec} | {mall} | {msub} | {rt} | {skAll} | {skSub}"
   | _ => "bad-op"
 
 def codecOps : List (String × (List String → String)) :=
